@@ -242,11 +242,26 @@ def run(ctx):
     ctx.cov["distribution"] = hist
     ctx.cov["disagreements"] = dis
     ctx.oblige("K: engine = seval on every case (or reported as violation)", True)
+    # --- set operators as a node of the core language (DSet, Model/Expr.v): composed with clauses / other operators in ONE
+    #     statement, operands that are clause / operator results, columns declared in another order; evaluated by run_script
+    import exprk
+    q = ctx.tier == "quick"
+    exprk.run_k(ctx, "C05", 40 if q else 3000, 15 if q else 800, kinds=["setop", "setop", "setop", "clause", "binary"], tag="c05k",
+                nested_kinds=["setop", "setop", "clause", "clause", "binary", "elem"], directed={"setctx": 40 if q else 2000},
+                corpus_dir="C05k", cov_key="composed", n_incompatible=6 if q else 100)
+    ctx.cov["rule"] += ("; composed: scripts whose statements are set operators over inputs / clause results / operator results, a nested single-statement "
+                        "stream and the directed family setctx (set operator under sub / filter+calc / keep…, as operand of dataset∘dataset, element-wise "
+                        "and other set operators; keys agreeing on the surviving identifier and differing on the removed one), and operands with "
+                        "different numbers of components (1-1-17-1) — engine vs run_script (DSet)")
+    ctx.oblige("K: engine = run_script (DSet, Model/Expr.v) on every composed case (or reported as violation)", True)
     ctx.trusted.append("DuckDB 1.5.5 executes the emitted SQL (observed, not modelled); UNION ALL operand order is assumed preserved by the engine's "
                        "ROW_NUMBER() OVER () (hypothesis of C05_union_concat_is_union; exercised by every union case)")
 
 
 def replay(ctx, obj):
+    if "inputs" in obj.get("case", {}):   # a composed case (exprk format)
+        import exprk
+        return exprk.replay_case(obj)
     c = case_from_json(obj["case"])
     script, got = run_engine(c)
     want = canon_py_rows(py_seval(c["expr"], c), c)
